@@ -36,7 +36,7 @@ REQUIRED = [
     "KV.C16.wordSwap_not_exchange", "KV.C16.sizedSort_bytes", "KV.C16.spill_roundtrip", "KV.C16.spill_m8_breaks",
     "KV.C16.spill_records_roundtrip", "KV.C16.afterBlockSorterBytes_refines", "KV.C16.codeSortBytes_eq_spec",
     "KV.C16.codeSortBytes_ok", "KV.C16.output_blocks_invariant", "KV.C16.counting_int", "KV.C16.intLt_singleton", "KV.C16.proxy_iterator_arith", "KV.C16.pass_spill_bytes", "KV.C16.mergeGroup_uniform",
-    "KV.C16.byteEntry_refines", "KV.C16.byteEntry_unrounded_breaks", "KV.C16.stream_write_roundtrip", "KV.C16.pread_blocks_invariant", "KV.C16.fileEntry_refines", "KV.C16.codeSort_eq_spec", "KV.C16.codeSort_combine_eq_spec",
+    "KV.C16.byteEntry_refines", "KV.C16.byteEntry_unrounded_breaks", "KV.C16.stream_write_roundtrip", "KV.C16.pread_blocks_invariant", "KV.C16.pwrite_roundtrip", "KV.C16.fileEntry_refines", "KV.C16.codeSort_eq_spec", "KV.C16.codeSort_combine_eq_spec",
 ]
 
 BOOST = ["-Wl,--no-as-needed", "-lboost_thread", "-lboost_system", "-ldl"]
